@@ -377,6 +377,25 @@ def cpp_side(model, cm, proto, rng, quick, stats, viols, ctx):
             # give back the items that went in - under every read history (ground truth = the values, not another history)
             w0 = cm.run_plan([data], [{"proto": proto.name, "op": "relay", "in_fmt": "binary", "out_fmt": "ndjson", "input": 0, "batch": [1] * nb}], timeout=120)[0]
             if w0 is not None and not w0.get("crashed") and w0.get("ok"):
+                # write groupings into the C++ NDJSON writer: the same items handed over in batches (CopyTo buffer sizes), to an
+                # output stream in its default state or one its owner used before - the lines written must be the same
+                for c in r.fork("ndwrite").sample([2, 3, 7, 64], 2):
+                    for ost in (0, r.fork("ndwrite-ostate", c).choice([1, 2, 3, 4, 5, 6])):
+                        wr = cm.run_plan([data], [{"proto": proto.name, "op": "relay", "in_fmt": "binary", "out_fmt": "ndjson", "input": 0, "batch": [c] * nb, "ostate": ost}], timeout=120)[0]
+                        stats["runs"] = stats.get("runs", 0) + 1
+                        stats["cpp_ndjson_write_groupings"] = stats.get("cpp_ndjson_write_groupings", 0) + 1
+                        if wr is None:
+                            continue
+                        how_ = {"batch": c, "ostate": ost}
+                        if wr.get("crashed") or not wr.get("ok"):
+                            viols.append(({"class": "writer_raised_on_legal_history", "lang": "cpp", "format": "ndjson"},
+                                          doc(model, proto, vals, parts, ctx, "cpp_cppnd_write", str(wr.get("what") or wr.get("stderr", ""))[-300:], how=how_)))
+                        elif wr["out"] != w0["out"]:
+                            a_, b_ = bytes.fromhex(w0["out"]).decode("utf-8", "replace").split("\n"), bytes.fromhex(wr["out"]).decode("utf-8", "replace").split("\n")
+                            k_ = next((j for j, (x, y) in enumerate(zip(a_, b_)) if x != y), min(len(a_), len(b_)))
+                            viols.append(({"class": "items_depend_on_write_grouping", "lang": "cpp", "format": "ndjson"},
+                                          doc(model, proto, vals, parts, ctx, "cpp_cppnd_write", "line %d written with batches of %d (ostream state %d) differs from the line written item by item: %s | %s"
+                                              % (k_, c, ost, (b_[k_] if k_ < len(b_) else "<none>")[:120], (a_[k_] if k_ < len(a_) else "<none>")[:120]), how=how_)))
                 inputs.append(bytes.fromhex(w0["out"]))
                 kk = len(inputs) - 1
                 for c in ([1] + r.sample([2, 3, 7, 64], 2)):
@@ -664,6 +683,10 @@ def replay_doc(doc_, ybin, root):
             nb_ = cm.copyto[proto.name]
             w0 = cm.run_plan([data], [{"proto": proto.name, "op": "relay", "in_fmt": "binary", "out_fmt": "ndjson", "input": 0, "batch": [1] * nb_}])[0]
             raw = bytes.fromhex(w0["out"])
+            if doc_["pipeline"] == "cpp_cppnd_write":
+                wr = cm.run_plan([data], [{"proto": proto.name, "op": "relay", "in_fmt": "binary", "out_fmt": "ndjson", "input": 0, "batch": [doc_["how"]["batch"]] * nb_, "ostate": doc_["how"]["ostate"]}])[0]
+                bad = wr is None or wr.get("crashed") or not wr.get("ok") or wr["out"] != w0["out"]
+                return bool(bad), "lines differ from those written item by item" if bad else "same lines"
             if doc_["pipeline"] == "cpp_cppnd_relay":
                 run = {"proto": proto.name, "op": "relay", "in_fmt": "ndjson", "out_fmt": "binary", "input": 0, "batch": doc_["how"]}
             else:
